@@ -349,4 +349,3 @@ func clientCase(r *rep.Report, reply []byte, label string) {
 		r.Fail(key+"refused", fmt.Sprintf("a valid version reply (msize %d) was refused: %v", m.MSize, got.err), c, nil)
 	}
 }
-
